@@ -43,7 +43,7 @@ def run(chk):
         # a second process state: different heap layout before compiling
         cases.append(("b%d" % i, ["junk %d %d" % (r.range(1, 50), r.choice([24, 100, 4096, 70000]))] + cmds + ["getrules", "save"]))
         meta[i] = (d, bufs)
-    out, err = vlib.run_cases(hscan, cases, timeout=3000)
+    out, err = vlib.run_cases(hscan, cases, timeout=3000, jobs=16)
     certq, certid = [], []
     agree = 0
     nontriv = set()
